@@ -317,6 +317,13 @@ func VerifC09_Auction() {
 		vnd.Cover("C09.auction.no-winner")
 		vnd.Assert(len(res.Providers) == 0, "C09.auction.no-winner-no-providers")
 		vnd.Assert(!anyInTime, "C09.auction.no-winner-only-if-no-eligible-bid-before-soft-timeout")
+		// the strategy's deadline is the hard timeout: an eligible bid arriving before it (and, to keep
+		// the oracle exact, not at the very instant of a timeout) is never left out
+		for _, r := range relays {
+			if !r.fail {
+				vnd.Assert(!(r.latency < timeout && r.latency != timeout/2), "C09.auction.no-winner-only-if-no-eligible-bid-before-the-hard-timeout")
+			}
+		}
 		return
 	}
 	vnd.Cover("C09.auction.winner")
